@@ -1,5 +1,5 @@
-(* C07 at the dispatch / store level (Model/Dispatch.v = simulate/base.py stores, message_signature, TandemDispatcher; component/base.py StoreAdapter and ReducerMethodWrappingDispatcher; timer.py; composed with Model/Router.v and Model/Play.v, which are reused unchanged).  For ALL entity and payload types, components (names, mapping keys, default states, binds, addons), reducers (arbitrary partial functions of payload and state), stores, route caches and nesting depths.  C07_write_frame: one call of a component dispatcher changes the store at no address outside the resolved bound names of that component (default-state names, binds, the global dynamics bind), removes nothing, and only appends to the ghost invocation trace.  C07_present_set_unchanged: if all bound addresses are present beforehand the set of present addresses is unchanged.  C07_store_unchanged: if the reducer answers (its input state, one event tagged REJECT) -- what C07_reject_alone proves of every modelled class -- and all bound addresses are present, the store after the dispatch is extensionally the store before, and the returned events are exactly that one event (name, payload, handler kept; method = the mapped method name; tag REJECT), no ACCEPT.  C07_store_unchanged_needs_present: the presence guard is necessary -- read_entity with a default is dict.setdefault, so a rejected dispatch on a store lacking a defaulted entity creates it (witness).  C07_accept_rule / C07_reject_not_accepted / C07_silent_answer_accepted: ACCEPT is appended exactly when no raw event is tagged REJECT or ACCEPT; in particular a silent answer (no events, the ignore_rejected style) IS acknowledged -- as the code behaves.  C07_timer_write_frame: the timer writes only global.time.  C07_router_write_frame (any route cache, coherent or not): a router dispatch changes nothing outside the bound addresses of the installed components and the clock address.  C07_router_write_frame_fine (coherent cache; the empty cache is coherent and dispatch keeps coherence, C02): only the addresses touched statically from the signature: bound addresses of the dispatchers that include it, transitively through the addons that fire on it, the clock for *.elapse.  C07_play_write_frame: a whole play changes only the union over its queue.  Hypotheses that stay tested: the shipped reducers answer (input state, reject) -- proved per class in C07.v / C07_<ext>.v for the models of Model/Comp.v, Spec*.v; the tie of Model/Dispatch.v to the code is the H-dispatch correspondence (tools/lib/h_dispatch.py). *)
-From Coq Require Import List String ZArith. From V.Model Require Import Router Play Engine Dispatch. From V.Proofs Require Import DispatchStore DispatchRouter DispatchPlay DispatchExamples.
+(* C07 at the dispatch / store level (Model/Dispatch.v = simulate/base.py stores, message_signature, TandemDispatcher; component/base.py StoreAdapter and ReducerMethodWrappingDispatcher; timer.py; composed with Model/Router.v and Model/Play.v, which are reused unchanged).  For ALL entity and payload types, components (names, mapping keys, default states, binds, addons), reducers (arbitrary partial functions of payload and state), stores, route caches and nesting depths.  C07_write_frame: one call of a component dispatcher changes the store at no address outside the resolved bound names of that component (default-state names, binds, the global dynamics bind), removes nothing, and only appends to the ghost invocation trace.  C07_present_set_unchanged: if all bound addresses are present beforehand the set of present addresses is unchanged.  C07_store_unchanged: if the reducer answers (its input state, one event tagged REJECT) -- what C07_reject_alone proves of every modelled class -- and all bound addresses are present, the store after the dispatch is extensionally the store before, and the returned events are exactly that one event (name, payload, handler kept; method = the mapped method name; tag REJECT), no ACCEPT.  C07_store_unchanged_needs_present: the presence guard is necessary -- read_entity with a default is dict.setdefault, so a rejected dispatch on a store lacking a defaulted entity creates it (witness).  C07_accept_rule / C07_reject_not_accepted / C07_silent_answer_accepted: ACCEPT is appended exactly when no raw event is tagged REJECT or ACCEPT; in particular a silent answer (no events, the ignore_rejected style) IS acknowledged -- as the code behaves.  C07_timer_write_frame: the timer writes only global.time.  C07_router_write_frame (any route cache, coherent or not): a router dispatch changes nothing outside the bound addresses of the installed components and the clock address.  C07_router_write_frame_fine (coherent cache; the empty cache is coherent and dispatch keeps coherence, C02): only the addresses touched statically from the signature: bound addresses of the dispatchers that include it, transitively through the addons that fire on it, the clock for *.elapse.  C07_play_write_frame: a whole play changes only the union over its queue.  Hypotheses that stay tested: the shipped reducers answer (input state, reject) -- proved per class in C07.v / C07_<ext>.v for the models of Model/Comp.v, Spec*.v; the tie of Model/Dispatch.v to the code is the H-dispatch correspondence (tools/lib/h_dispatch.py).  INSTALLED DISPATCHER AND ROUTER (Proofs/DispatchNoop.v).  C07_rejected_base_skips_addons: TandemDispatcher returns a base answer containing an event tagged REJECT as it is (repair of the audit finding on addons; Model/Router.v is_reject): if the component's own answer contains a reject, the installed dispatcher (component + addons) returns exactly that answer and the store the component left, relative to any router, i.e. at any nesting depth; C07_rejected_installed_dispatcher_noop: with C07_store_unchanged, one tagged reject, no ACCEPT, no addon event, store extensionally unchanged; C07_rejected_addons_example replays the audit witness (attack A with addon -> buff B: use A, elapse, use A while cooling down: [A reject] alone, B untouched).  C07_router_rejected_is_noop (true part at ROUTER level): a system with raw_action_listeners cs = [] (Model/DispatchReviewed.v: no listening key is matched by the raw signature <owner>.<method> of another component), distinct names, coherent route cache; the player's action goes to the owner's default key, the owner's reducer answers (input state, [reject]) with all its bound addresses present: the router (components, then the timer) answers with exactly that one tagged reject, the store is extensionally unchanged and the only reducer invoked is the owner's.  C07_router_rejected_refuted: with a raw-action listener this FAILS at router level although every component obeys the component law (reject alone, state unchanged): the router's answer to a rejected X.use contains the listener's damage and its stack is consumed (known finding C07-raw-action-listeners: archmagefb 포이즌 노바 / 플레임 스윕 VI / 포이즌 미스트, adele 크리에이션; the shipped occurrences are the REVIEWED list of Model/DispatchReviewed.v and gen/DispatchData.v proves by vm_compute that the raw-action listeners of every shipped system are inside it, and that the other systems have none -- the premise of the true part). *)
+From Coq Require Import List String ZArith. From V.Model Require Import Router Play Engine Dispatch DispatchViews DispatchReviewed. From V.Proofs Require Import DispatchStore DispatchRouter DispatchPlay DispatchExamples DispatchNoop DispatchNoopExamples.
 
 Theorem C07_write_frame :
   forall (Ent Pay : Type) (empty_pay : Pay) (c : component Ent Pay) (a : action Pay) 
@@ -198,6 +198,188 @@ Theorem C07_accepted_use_example :
                  |} :: nil).
 Proof. exact @accepted_use. Qed.
 
+Theorem C07_rejected_base_skips_addons :
+  forall (Ent Pay : Type) (empty_pay : Pay) (X : Type)
+          (rt : X -> action Pay -> rst Ent Pay -> X * result (rst Ent Pay) (event Pay))
+          (c : component Ent Pay) (x : X) (a : action Pay) (s s1 : rst Ent Pay) (ev1 : list (event Pay)),
+        call_comp Ent Pay empty_pay c a s = Some (s1, ev1) ->
+        existsb ev_is_reject ev1 = true ->
+        call_d string (action Pay) (rst Ent Pay) (event Pay) eqb sig_of ev_is_reject X rt
+          (comp_disp Ent Pay empty_pay c) x a s = (x, Some (s1, ev1)).
+Proof. exact @rejected_base_skips_addons. Qed.
+
+Theorem C07_rejected_installed_dispatcher_noop :
+  forall (Ent Pay : Type) (empty_pay : Pay) (X : Type)
+          (rt : X -> action Pay -> rst Ent Pay -> X * result (rst Ent Pay) (event Pay))
+          (c : component Ent Pay) (x : X) (a : action Pay) (st : store Ent) (tr : list (invocation Pay))
+          (key : string) (red : reducer Ent Pay) (method : string) (st1 : store Ent) 
+          (fs : fields Ent) (me : maybe_events Pay) (e : event Pay),
+        find_mapping Ent Pay c (sig_of a) = FFound key ->
+        key <> ""%string ->
+        dget (c_maps c) key = Some {| m_method := Some method; m_red := Some red |} ->
+        (forall y : string, In y (bound_addrs Ent Pay c) -> present Ent st y) ->
+        get_state Ent Pay c st = Some (st1, fs) ->
+        red (a_pay a) fs = Some (fs, me) ->
+        regularize Pay me = e :: nil ->
+        ev_tag e = Some REJECT ->
+        exists st' : store Ent,
+          call_d string (action Pay) (rst Ent Pay) (event Pay) eqb sig_of ev_is_reject X rt
+            (comp_disp Ent Pay empty_pay c) x a (st, tr) =
+          (x,
+           Some
+             (st',
+              tr ++
+              {|
+                i_comp := c_name c; i_key := key; i_method := method; i_pay := a_pay a; i_addon := a_addon a
+              |} :: nil,
+              {|
+                ev_name := ev_name e;
+                ev_pay := ev_pay e;
+                ev_method := method;
+                ev_tag := Some REJECT;
+                ev_handler := ev_handler e
+              |} :: nil)) /\ ext_eq Ent st st'.
+Proof. exact @rejected_installed_dispatcher_noop. Qed.
+
+Theorem C07_rejected_addons_example :
+  t_run =
+        Some
+          ({|
+             ev_name := "A";
+             ev_pay := 40%Z;
+             ev_method := "use";
+             ev_tag := Some "global.damage"%string;
+             ev_handler := None
+           |}
+           :: {|
+                ev_name := "A"; ev_pay := 0%Z; ev_method := "use"; ev_tag := Some ACCEPT; ev_handler := None
+              |}
+              :: {|
+                   ev_name := "B";
+                   ev_pay := 0%Z;
+                   ev_method := "use";
+                   ev_tag := Some "global.delay"%string;
+                   ev_handler := None
+                 |}
+                 :: {|
+                      ev_name := "B";
+                      ev_pay := 0%Z;
+                      ev_method := "use";
+                      ev_tag := Some ACCEPT;
+                      ev_handler := None
+                    |} :: nil,
+           {| ev_name := "A"; ev_pay := 0%Z; ev_method := "use"; ev_tag := Some REJECT; ev_handler := None |}
+           :: nil,
+           ("global.dynamics"%string, 100%Z)
+           :: ("global.time"%string, 2%Z) :: (".A.cooldown"%string, 3%Z) :: (".B.lasting"%string, 8%Z) :: nil,
+           ("global.dynamics"%string, 100%Z)
+           :: ("global.time"%string, 2%Z) :: (".A.cooldown"%string, 3%Z) :: (".B.lasting"%string, 8%Z) :: nil,
+           {| i_comp := "A"; i_key := "A.use"; i_method := "use"; i_pay := 0%Z; i_addon := false |} :: nil).
+Proof. exact @rejected_use_does_not_run_addons. Qed.
+
+Theorem C07_router_rejected_is_noop :
+  forall (Ent Pay : Type) (empty_pay : Pay) (clock0 : Ent) (spent : Ent -> Pay -> option Ent)
+          (cs : list (component Ent Pay)) (c : component Ent Pay) (n : nat) (cache : Router.cache string)
+          (a : action Pay) (st : store Ent) (tr : list (invocation Pay)) (key method : string)
+          (red : reducer Ent Pay) (st1 : store Ent) (fs : fields Ent) (me : maybe_events Pay) 
+          (e : event Pay),
+        names_distinct Ent Pay cs = true ->
+        no_raw_listeners Ent Pay cs = true ->
+        In c cs ->
+        Router.Coh string (action Pay) (rst Ent Pay) (event Pay) eqb
+          (installed Ent Pay empty_pay clock0 spent (shipped_system Ent Pay cs)) cache ->
+        sig_of a = key ->
+        key = (c_name c ++ "." ++ method)%string ->
+        key <> "*.elapse"%string ->
+        dget (c_maps c) key = Some {| m_method := Some method; m_red := Some red |} ->
+        (forall y : string, In y (bound_addrs Ent Pay c) -> present Ent st y) ->
+        get_state Ent Pay c st = Some (st1, fs) ->
+        red (a_pay a) fs = Some (fs, me) ->
+        regularize Pay me = e :: nil ->
+        ev_tag e = Some REJECT ->
+        exists (st' : store Ent) (cache' : Router.cache string),
+          dispatch_c Ent Pay (S n) (installed Ent Pay empty_pay clock0 spent (shipped_system Ent Pay cs))
+            cache a (st, tr) =
+          (cache',
+           Some
+             (st',
+              tr ++
+              {|
+                i_comp := c_name c; i_key := key; i_method := method; i_pay := a_pay a; i_addon := a_addon a
+              |} :: nil,
+              {|
+                ev_name := ev_name e;
+                ev_pay := ev_pay e;
+                ev_method := method;
+                ev_tag := Some REJECT;
+                ev_handler := ev_handler e
+              |} :: nil)) /\
+          ext_eq Ent st st' /\
+          Router.Coh string (action Pay) (rst Ent Pay) (event Pay) eqb
+            (installed Ent Pay empty_pay clock0 spent (shipped_system Ent Pay cs)) cache'.
+Proof. exact @router_rejected_is_noop. Qed.
+
+Theorem C07_router_rejected_refuted :
+  exists (cs : list (component Ent Pay)) (st : store Ent),
+          (forall (c : component Ent Pay) (key m : string) (red : reducer Ent Pay),
+           In c cs ->
+           dget (c_maps c) key = Some {| m_method := Some m; m_red := Some red |} -> reject_alone red) /\
+          names_distinct Ent Pay cs = true /\
+          binds_closed Ent Pay cs = true /\
+          (forall c : component Ent Pay,
+           In c cs -> forall x : string, In x (bound_addrs Ent Pay c) -> present Ent st x) /\
+          raw_action_listeners Ent Pay cs = ("L"%string, "X.use"%string, "X"%string) :: nil /\
+          call_comp Ent Pay 0%Z r_X (A "X" "use" 0%Z) (st, nil) =
+          Some
+            (st,
+             {| i_comp := "X"; i_key := "X.use"; i_method := "use"; i_pay := 0%Z; i_addon := false |} :: nil,
+             {|
+               ev_name := "X"; ev_pay := 0%Z; ev_method := "use"; ev_tag := Some REJECT; ev_handler := None
+             |} :: nil) /\
+          snd
+            (dispatch_c Ent Pay 5 (installed Ent Pay 0%Z 0%Z xspent (shipped_system Ent Pay cs)) nil
+               (A "X" "use" 0%Z) (st, nil)) =
+          Some
+            (("global.dynamics"%string, 100%Z)
+             :: ("global.time"%string, 0%Z) :: (".X.cooldown"%string, 5%Z) :: (".L.stack"%string, 2%Z) :: nil,
+             {| i_comp := "X"; i_key := "X.use"; i_method := "use"; i_pay := 0%Z; i_addon := false |}
+             :: {| i_comp := "L"; i_key := "X.use"; i_method := "burst"; i_pay := 0%Z; i_addon := false |}
+                :: nil,
+             {|
+               ev_name := "X"; ev_pay := 0%Z; ev_method := "use"; ev_tag := Some REJECT; ev_handler := None
+             |}
+             :: {|
+                  ev_name := "L";
+                  ev_pay := 7%Z;
+                  ev_method := "burst";
+                  ev_tag := Some "global.damage"%string;
+                  ev_handler := None
+                |}
+                :: {|
+                     ev_name := "L";
+                     ev_pay := 0%Z;
+                     ev_method := "burst";
+                     ev_tag := Some ACCEPT;
+                     ev_handler := None
+                   |} :: nil).
+Proof. exact @router_rejected_refuted. Qed.
+
+Theorem C07_router_noop_without_listener_example :
+  no_raw_listeners Ent Pay (r_X :: r_Y :: nil) = true /\
+        snd
+          (dispatch_c Ent Pay 5
+             (installed Ent Pay 0%Z 0%Z xspent (shipped_system Ent Pay (r_X :: r_Y :: nil))) nil
+             (A "X" "use" 0%Z)
+             (("global.dynamics"%string, 100%Z)
+              :: ("global.time"%string, 0%Z) :: (".X.cooldown"%string, 5%Z) :: nil, nil)) =
+        Some
+          (("global.dynamics"%string, 100%Z)
+           :: ("global.time"%string, 0%Z) :: (".X.cooldown"%string, 5%Z) :: nil,
+           {| i_comp := "X"; i_key := "X.use"; i_method := "use"; i_pay := 0%Z; i_addon := false |} :: nil,
+           {| ev_name := "X"; ev_pay := 0%Z; ev_method := "use"; ev_tag := Some REJECT; ev_handler := None |}
+           :: nil).
+Proof. exact @router_noop_without_listener. Qed.
+
 Print Assumptions C07_write_frame.
 Print Assumptions C07_present_set_unchanged.
 Print Assumptions C07_store_unchanged.
@@ -213,3 +395,9 @@ Print Assumptions C07_store_unchanged_needs_present.
 Print Assumptions C07_dispatch_nonvacuous.
 Print Assumptions C07_dispatch_theorem_applies.
 Print Assumptions C07_accepted_use_example.
+Print Assumptions C07_rejected_base_skips_addons.
+Print Assumptions C07_rejected_installed_dispatcher_noop.
+Print Assumptions C07_rejected_addons_example.
+Print Assumptions C07_router_rejected_is_noop.
+Print Assumptions C07_router_rejected_refuted.
+Print Assumptions C07_router_noop_without_listener_example.
